@@ -138,6 +138,11 @@ def c05(tier, seed):
 def c06(tier, seed):
     jobs = sched_jobs(tier, seed, gen=dict(nmax=9, mc_max=4, pri="small"), selections=True)
     jobs += sched_jobs(tier, seed + 7, gen=dict(nmax=8, mc_max=3, pri="pow10"), selections=True, stress=False, dfs=False, scale=0.5)
+    # tie-free priorities at max_concurrency=1: the observed start order must be THE order by compound priority - also for
+    # executors with debug nodes re-attached (RUN_DEBUG_NODES on), composed DAGs, re-configured DAGs and retried executors
+    jobs += [dict(kind="cp", pid="C06", exhaustive_n=[2, 3, 4] if tier == "quick" else [2, 3, 4, 5], part=0, nparts=1,
+                  random_cases=(40 if tier == "quick" else 400), seed=seed * 97 + 50 + h, hashseed=h,
+                  variants={"target": "one", "root": 1, "exclude": 1, "config": 1, "debug": 1, "compose": 1, "retry": 1}) for h in range(2 if tier == "quick" else 8)]
     return dict(
         jobs=jobs, level="exploration", rule=RULE_SCHED + "; whole-DAG calls and executors with target/exclude/root selections",
         assumptions=ASSUME_COMMON + ["ready set = scheduler-knowable: a node whose parent finished but was not yet delivered by a wait is not counted"],
@@ -150,6 +155,9 @@ def c08(tier, seed):
     jobs = sched_jobs(tier, seed, gen=dict(nmin=3, nmax=10, mc_max=4, max_deps=2, mix="thread", setup_rate=0.3), flavour="both", scale=0.5)
     jobs += sched_jobs(tier, seed + 3, gen=dict(nmin=3, nmax=10, mc_max=4, max_deps=2, mix="async"), flavour="both", scale=0.5, dfs=False, stress=False)
     jobs += sched_jobs(tier, seed + 5, gen=dict(nmin=3, nmax=10, mc_max=4, max_deps=2), flavour="both", scale=0.5)
+    # executors with target / exclude / root selections followed by whole calls on the SAME object: the parallelism of a later
+    # execution must not depend on what ran before
+    jobs += sched_jobs(tier, seed + 9, gen=dict(nmin=4, nmax=10, mc_max=4, max_deps=1), flavour="both", scale=0.5, selections=True, dfs=False, stress=False)
     return dict(
         jobs=jobs, level="exploration", rule=RULE_SCHED + "; thread-only, async-only and mixed DAGs generated separately",
         assumptions=ASSUME_COMMON, required_reach=["c08_blocking_waits", "WAIT_thread", "WAIT_async"],
